@@ -119,6 +119,7 @@ type Exec struct {
 	entryInf    *entryInfo
 	litParams   map[string]*Cell
 	curHidden   *Cell
+	outerHidden *Cell // hidden index of the enclosing range loop ($idxouter)
 	altName     string
 	lazyCaptures bool
 	boxedPtrs   map[string]PtrVal
